@@ -6,7 +6,7 @@ Oracle: O-hull facets (supporting-plane enumeration, no qhull for <=36 points)."
 
 import numpy as np
 
-from .. import contracts, gen, geom
+from .. import aging, contracts, gen, geom
 
 PROPERTY = "C07"
 RULE = ("G-convex vertex sets in two vertex orders (structure postcondition at the end of ConvexPolyhedron.__init__); G-mesh(e): "
@@ -24,7 +24,7 @@ ANCHORS = ["coxeter.shapes.convex_polyhedron:ConvexPolyhedron._combine_simplices
 REQUIRED_MONITORS = ["convex:faces-are-hull-facets", "convex:face-ccw-from-outside", "convex:equations", "convex:neighbors",
                      "convex:edges", "convex:euler", "convex:simplices", "convex:dihedral", "sort_faces:outward-ccw",
                      "merge_faces:hull-facets", "order-independence"]
-REQUIRED_CLASSES = ["convex:lattice", "convex:tabulated", "convex:exact", "scramble:convex", "scramble:voxel", "merge:convex"]
+REQUIRED_CLASSES = ["convex:lattice", "convex:tabulated", "convex:exact", "scramble:convex", "scramble:voxel", "merge:convex", "history:aged-object"]
 
 
 def ncases(tier):
@@ -191,6 +191,15 @@ def run_case(i, rng, rec, tier, state):
         f2 = {frozenset(tuple(np.round(P[perm][j], 12)) for j in f) for f in s2.faces}
         rec.check("order-independence", f1 == f2, "ConvexPolyhedron.faces/depend-on-vertex-order", {"vertices": P, "perm": perm})
         h = _EXACT.get(P.tobytes()) or geom.hull_facets(P)
+        if (i // 3) % 4 == 1 and "Pint" not in c:
+            # the same structural postcondition on the object after a public history (resizes, moves, diagonalize_inertia,
+            # to_hoomd): faces, equations, neighbours, edges and simplices must describe the current vertices
+            hist = aging.age(s, rng)
+            rec.cls("history:aged-object")
+            try:
+                check_convex(rec, s, tag="/after-history")
+            except geom.DegenerateInput:
+                rec.note("degenerate after history, not judged")
         if any(len(f) > 3 for f in h.facets) or len(h.facets) > 12:
             rec.nontriv(P[np.lexsort(P.T)])
         if i < 6:
